@@ -186,7 +186,51 @@ static std::string genProgram(std::mt19937_64 &rng, bool big) {
   return o.str();
 }
 
+// ---- directed reference distances -------------------------------------------------------------------------------------
+// F bytes of filler that contains no label and no DATA: 8-byte instructions (LDAC 2147483647) and 1-byte ones (LDAC 0)
+static void filler(std::ostringstream &o, long F) { for (long i = 0; i < F / 8; i++) o << "LDAC 2147483647\n"; for (long i = 0; i < F % 8; i++) o << "LDAC 0\n"; }
+static int minLen(long v) { if (v >= 0) { int n = 1; while (n < 8 && (v >> (4 * n)) != 0) n++; return n; } int n = 2; while (n < 8 && (v >> (4 * n)) != -1) n++; return n; }
+// relative reference with operand D: forward: `tok L; <D bytes>; L`, backward: `L; <|D|-len bytes>; tok L` (len = encoding length slack)
+static std::string relProgram(const char *tok, long D, int slack) {
+  std::ostringstream o;
+  if (D >= 0) { o << tok << " L\n"; filler(o, D); o << "L\nLDAC 0\n"; }
+  else { long F = -D - (minLen(D) + slack); if (F < 0) F = 0; o << "L\n"; filler(o, F); o << tok << " L\nLDAC 0\n"; }
+  return o.str();
+}
+// absolute reference with operand W (the label's word address): `tok L; <filler to byte 4W>; L; DATA 7`
+static std::string absProgram(const char *tok, long W, int slack) {
+  std::ostringstream o; o << tok << " L\n"; long F = 4 * W - (minLen(W) + slack); if (F < 0) F = 0; filler(o, F); o << "L\nDATA 7\n"; return o.str();
+}
+static std::vector<long> directedValues(long limit) {
+  std::vector<long> v;
+  for (int k = 0; k <= 5; k++) for (long m = 1; m <= 15; m++) for (long d = -1; d <= 1; d++) { long x = m * (1L << (4 * k)) + d; if (x >= 0 && x <= limit) v.push_back(x); }
+  return v;
+}
+
 int main(int argc, char **argv) {
+  // distances <limit>: every relative operand +-(m*16^k + {-1,0,1}) and absolute operand m*16^k + {-1,0,1} up to <limit>
+  // distance <D> : the relative programs for operand D only (replay of a verifier counterexample on numNibbles/instrLen)
+  if (argc >= 3 && (!strcmp(argv[1], "distances") || !strcmp(argv[1], "distance"))) {
+    signal(SIGALRM, onAlarm);
+    bool one = !strcmp(argv[1], "distance");
+    std::vector<long> vals; if (one) vals.push_back(labs(atol(argv[2]))); else vals = directedValues(atol(argv[2]));
+    long progs = 0, bad5 = 0, bad17 = 0; std::string first5, first17, why5, why17; int rot = 0;
+    auto run = [&](const std::string &src) {
+      progs++; g_current = src; g_done = progs; alarm(60);
+      Verdict v = validate(src); alarm(0);
+      if (!v.accepted) { if (!v.ok) { if (!bad5) { first5 = src; why5 = v.why; } bad5++; } return; }
+      if (!v.ok) { if (v.c05 == 1) { if (!bad5) { first5 = src; why5 = v.why; } bad5++; } else { if (!bad17) { first17 = src; why17 = v.why; } bad17++; } }
+    };
+    for (long x : vals) {
+      const char *rt = REL[rot % 7], *at = ABS[rot % 5]; rot++;
+      if (!one || atol(argv[2]) >= 0) run(relProgram(rt, x, 0));
+      if (x > 0 && (!one || atol(argv[2]) < 0)) for (int s = 0; s <= 1; s++) run(relProgram(rt, -x, s));
+      if (!one && x <= 199990) for (int s = 0; s <= 1; s++) run(absProgram(at, x, s));
+    }
+    printf("{\"programs\": %ld, \"bad_layout_or_reference\": %ld, \"bad_listing_only\": %ld, \"why_c05\": \"%s\", \"first_c05\": \"%s\", \"why_c17\": \"%s\", \"first_c17\": \"%s\"}\n",
+           progs, bad5, bad17, jsonEscape(why5).c_str(), jsonEscape(bad5 && first5.size() < 4000000 ? first5 : std::string()).c_str(), jsonEscape(why17).c_str(), jsonEscape(bad17 ? first17 : std::string()).c_str());
+    return 0;
+  }
   if (argc >= 3 && !strcmp(argv[1], "replay")) {
     std::ifstream f(argv[2]); std::stringstream ss; ss << f.rdbuf();
     Verdict v = validate(ss.str());
